@@ -1,6 +1,7 @@
 package main
 
 import (
+	"bytes"
 	"fmt"
 	"os"
 	"path/filepath"
@@ -552,4 +553,31 @@ func c08(run *ev.Run, tier string) {
 	run.Set("registrations_checked", checked)
 	run.Set("matrix_cells", len(cells))
 	run.Set("matrix_exhaustive", true)
+	// the command line tool with the packager guessed from the target's extension
+	// marks the files the format's override block types as configuration
+	if bin := nfpmBin(run); bin != "" {
+		cliGuessedPackager(run, bin, "C08", func(f string, named, guessed []byte) {
+			p := dec.Decode(f, guessed, false)
+			plan := map[string]*gen.PlanEntry{}
+			for _, d := range []string{"/opt", "/opt/guessed", "/etc", "/etc/guessed"} {
+				plan[d] = &gen.PlanEntry{Path: d, Kind: "dir", CType: "dir", Implied: true}
+			}
+			plan["/opt/guessed/plain.txt"] = &gen.PlanEntry{Path: "/opt/guessed/plain.txt", Kind: "file", CType: "file"}
+			plan["/opt/guessed/only-"+f+".txt"] = &gen.PlanEntry{Path: "/opt/guessed/only-" + f + ".txt", Kind: "file", CType: "file"}
+			plan["/etc/guessed/"+f+".conf"] = &gen.PlanEntry{Path: "/etc/guessed/" + f + ".conf", Kind: "file", CType: "config|noreplace"}
+			var n int64
+			if len(p.Errs) > 0 {
+				run.Violate("C08/cli/"+f+"/undecodable/packager-guessed-from-target-extension", map[string]any{"errors": p.Errs})
+			}
+			for _, pr := range typingProblems(f, p, plan, &n) {
+				run.Violate("C08/cli/"+f+"/"+pr.kind+"/packager-guessed-from-target-extension", map[string]any{"detail": pr.detail})
+			}
+			if p.Find("/etc/guessed/"+f+".conf") == nil {
+				run.Violate("C08/cli/"+f+"/config-file-missing/packager-guessed-from-target-extension", map[string]any{"path": "/etc/guessed/" + f + ".conf"})
+			}
+			if !bytes.Equal(named, guessed) {
+				run.Violate("C08/cli/"+f+"/package-differs/packager-guessed-from-target-extension", map[string]any{"len_named": len(named), "len_guessed": len(guessed)})
+			}
+		})
+	}
 }
